@@ -121,11 +121,20 @@ Definition from_bits (l : layout) (raw : Z) : res :=
 (* data.Const.as_bits() *)
 Definition as_bits (r : res) : resz := match r with Ok _ v => Okz v | Err c => Errz c end.
 
-(* tail of data.Const.__getitem__: shape.from_bits(value) for shape-castables, hdl.Const(value, shape).value otherwise *)
+(* tail of data.Const.__getitem__: value = hdl.Const(value, Shape.cast(shape)).value (the field bits read in the
+   field's shape: negative when the shape is signed and the top bit is set), then shape.from_bits(value) for
+   shape-castables, the value itself otherwise *)
 Definition const_field (sub : layout) (bits : Z) : res :=
   match sub with
   | Leaf s => Ok sub (norm s bits)
-  | ELeaf _ _ ms => if memz bits ms then Ok sub bits else Err 3     (* cls(bits) *)
+  | ELeaf s _ ms => if memz (norm s bits) ms then Ok sub (norm s bits) else Err 3     (* cls(value) *)
+  | _ => from_bits sub (mask (layout_size sub) bits)      (* Shape.cast(layout) = unsigned(size) *)
+  end.
+(* the same before the repair of finding C15-signed-enum-field: from_bits received the raw unsigned field bits *)
+Definition const_field_before_fix (sub : layout) (bits : Z) : res :=
+  match sub with
+  | Leaf s => Ok sub (norm s bits)
+  | ELeaf _ _ ms => if memz bits ms then Ok sub bits else Err 3
   | _ => from_bits sub bits
   end.
 
@@ -194,11 +203,21 @@ Definition view_field (sub : layout) (bits : Z) : res :=
   match sub with
   | Leaf s => Ok sub (if sgn s then sext (width s) bits else bits)     (* value.as_signed() *)
   | ELeaf s vw ms =>
+      let v := if sgn s then sext (width s) bits else bits in          (* value.as_signed(), then shape(value) *)
+      if vw then (if memz v ms then Ok sub v else Err 3)      (* EnumView(cls, value); ctx.get: shape.from_bits(v) *)
+      else Ok sub v                             (* IntEnum: cls(value) is the value itself *)
+  | _ => from_bits sub bits                     (* View(sub, slice); ctx.get -> sub.from_bits(value) *)
+  end.
+(* the same before the repair of finding C15-signed-enum-field: shape(value) received the unsigned slice *)
+Definition view_field_before_fix (sub : layout) (bits : Z) : res :=
+  match sub with
+  | Leaf s => Ok sub (if sgn s then sext (width s) bits else bits)
+  | ELeaf s vw ms =>
       if vw then
         if sgn s then Err 4                     (* EnumView.__init__: slice is unsigned, enum shape is signed *)
-        else if memz bits ms then Ok sub bits else Err 3      (* ctx.get: shape.from_bits(value) *)
-      else Ok sub bits                          (* IntEnum: the bare slice *)
-  | _ => from_bits sub bits                     (* View(sub, slice); ctx.get -> sub.from_bits(value) *)
+        else if memz bits ms then Ok sub bits else Err 3
+      else Ok sub bits                          (* IntEnum: the bare (unsigned) slice *)
+  | _ => from_bits sub bits
   end.
 
 (* View.__getitem__(key), key an int/str; tv = value of the view's target expression *)
@@ -411,12 +430,11 @@ Fixpoint init_at (i : init) (p : list Z) : option init :=
 (* sum of the offsets of a chain of nested fields *)
 Definition chain_off (c : list (Z * Z)) : Z := fold_right (fun ow acc => fst ow + acc) 0 c.
 
-(* a field through which a view can be read like the constant: not a signed enumeration with a view class
-   (EnumView refuses the unsigned slice), and for IntEnum fields (no validation on the view side) the bits
-   are those of a member *)
+(* a field through which a view can be read like the constant: always, except that for IntEnum fields (a plain
+   value on the view side, by design not validated) the bits, read in the field's shape, must be those of a member *)
 Definition view_ok_field (sub : layout) (bits : Z) : bool :=
   match sub with
-  | ELeaf s vw ms => if vw then negb (sgn s) else memz bits ms
+  | ELeaf s vw ms => vw || memz (norm s bits) ms
   | _ => true
   end.
 
@@ -550,17 +568,8 @@ Fixpoint synth_run (l : layout) (casgs sasgs : list sasg) (env : list Z) (clk st
 Definition synth (l : layout) (tv : Z) (casgs sasgs : list sasg) (env0 : list Z) (steps : list sstep) : list Z :=
   asgs_apply l env0 tv casgs :: synth_run l casgs sasgs env0 0 tv steps.
 
-(* Layout.format / ArrayLayout.format (run by Signal(layout)): builds shape(slice) for every field, recursively;
-   an enumeration with a view class and a signed shape refuses the unsigned slice (TypeError) *)
-Fixpoint format_ok (l : layout) : bool :=
-  match l with
-  | Leaf _ => true
-  | ELeaf s vw _ => negb (vw && sgn s)
-  | Struct fs => forallb (fun kf => format_ok (snd kf)) fs
-  | Union fs => forallb (fun kf => format_ok (snd kf)) fs
-  | Array e n => match n with O => true | _ => format_ok e end
-  | Flex _ fs => forallb (fun kf => format_ok (snd (snd kf))) fs
-  end.
+(* Layout.format / ArrayLayout.format (run by Signal(layout)) build shape(slice.as_signed() if signed) for every
+   field, recursively: every layout formats (no case of the model) *)
 
 (* FlexibleLayout.__init__: ValueError when a field ends past the declared size *)
 Definition flex_new_ok (sz : Z) (fs : list (Z * (Z * layout))) : bool :=
